@@ -372,8 +372,24 @@ class Interp:
                 if not self.match_pat(f["pat"], fv, env):
                     return False
             return True
+        if k == "path" and str(p["res"].get("dk", "")).startswith(("Const", "AssocConst")) and p["res"].get("path") in T.CONSTS:
+            # a named constant used as a pattern is its value
+            r = self.compare("==", v, Lit(T.CONSTS[p["res"]["path"]]))
+            return self.truth(r)
         if k in ("tuple_struct", "path", "struct"):
             name = sname(p["res"].get("path"))
+            if isinstance(v, Struct) and getattr(v, "is_variant", False):
+                # a struct-like variant built on this path against a pattern of the same enum
+                if v.name != name:
+                    return False
+                if k != "struct":
+                    return k == "path" or not p.get("pats")
+                for f in p["fields"]:
+                    if f["name"] not in v.fields:
+                        raise Cannot("field %s of %s" % (f["name"], v.name))
+                    if not self.match_pat(f["pat"], v.fields[f["name"]], env):
+                        return False
+                return True
             v = self.open_variant(v, name, p)
             if not isinstance(v, Variant):
                 raise Cannot("cannot match %s against %s" % (show(v), name))
@@ -607,7 +623,9 @@ class Interp:
         nm = T.strip_generics(r.get("path") or "")
         if "ops::Range" in nm or "range::Range" in nm:
             name = nm.split("::")[-1]
-        return Struct(name, fields)
+        st = Struct(name, fields)
+        st.is_variant = r.get("dk") == "Variant"      # `Enum::V { a, b }`: a variant with named fields
+        return st
 
     def ev_if(self, n, env):
         if self.cond(n["cond"], env):
@@ -699,6 +717,21 @@ class Interp:
             if x.get("k") in ("loop", "for") and x is not n:
                 raise Cannot("nested loop at %s" % T.loc(n))
         src = self.ev(n["iter"], env)
+        if isinstance(src, VecV) and src.base is None:
+            # a list whose items are all known on this path: the loop is executed, item by item
+            for item in list(src.items):
+                e2 = env
+                if not self.match_pat(n["pat"], item, e2):
+                    raise Cannot("loop pattern")
+                try:
+                    self.ev(body, e2)
+                except _Continue:
+                    continue
+                except _Break as b:
+                    if b.target in self._block_targets:
+                        raise
+                    break
+            return UNIT
         if not isinstance(src, Sym):
             raise Cannot("loop at %s over a collection built on this path" % T.loc(n))
         it = T.peel(n["iter"])
@@ -918,6 +951,19 @@ def _opt_map_or(I, a, n, env):
     if o.name == "Some":
         return I.apply(a[2], [o.args[0]])
     return a[1]
+
+
+def _opt_map_or_else(I, a, n, env):
+    """opt.map_or_else(|| d, f): like map_or, the default computed only when needed."""
+    o = I.open_option(a[0])
+    if o.name == "Some":
+        return I.apply(a[2], [o.args[0]])
+    return I.apply(a[1], [])
+
+
+def _opt_unwrap_or_else(I, a, n, env):
+    o = I.open_option(a[0])
+    return o.args[0] if o.name == "Some" else I.apply(a[1], [])
 
 
 def _opt_is_some(I, a, n, env):
@@ -1182,6 +1228,31 @@ def _slice_split_first(I, a, n, env):
     return Sym("%s.split_first()" % show(v), n.get("ty"))
 
 
+def _list_into_iter(I, a, n, env):
+    """A list built on this path consumed as an iterator: the same list (its items in order)."""
+    v = a[0]
+    if isinstance(v, VecV):
+        return v
+    return Sym("%s.into_iter()" % show(v), n.get("ty"))
+
+
+def _list_iter_next(I, a, n, env):
+    """`it.next()` on such an iterator: None iff nothing is left (the decision of `is_empty`), else the first item; the
+    iterator then stands behind it."""
+    v = a[0]
+    if isinstance(v, VecV):
+        if v.base is None:
+            return Variant("Some", [v.items.pop(0)]) if v.items else Variant("None")
+        if not v.items and I.truth(Sym("is_empty(%s)" % show(v.base), "bool")):
+            return Variant("None")
+        whole = show(v)
+        first = Sym("%s[0]" % whole)
+        v.items = []
+        v.base = Sym("%s[1..]" % whole)
+        return Variant("Some", [first])
+    return Sym("%s.next()" % show(v), n.get("ty"))
+
+
 def _iter_find_map(I, a, n, env):
     """it.find_map(|x| cond(x).then(|| f(x)))  ==  it.find(|x| cond(x)).map(|x| f(x)): the closure is explored on a fresh
     element; the paths that yield Some(..) give the predicate, their value (with the element substituted) the result."""
@@ -1365,6 +1436,8 @@ MODELS = {
     "std::option::Option::map": _opt_map,
     "std::option::Option::and_then": _opt_and_then,
     "std::option::Option::map_or": _opt_map_or,
+    "std::option::Option::map_or_else": _opt_map_or_else,
+    "std::option::Option::unwrap_or_else": _opt_unwrap_or_else,
     "std::option::Option::is_some": _opt_is_some,
     "std::option::Option::is_none": _opt_is_none,
     "std::option::Option::unwrap": _opt_unwrap,
@@ -1378,6 +1451,7 @@ MODELS = {
     "alloc::fmt::format": _format,
     "std::io::_print": _print,
     "core::slice::split_first": _slice_split_first, "std::slice::split_first": _slice_split_first,
+    "std::iter::IntoIterator::into_iter": _list_into_iter, "std::iter::Iterator::next": _list_iter_next,
     "std::slice::join": _slice_join, "core::slice::join": _slice_join, "alloc::slice::join": _slice_join,
     "std::ops::Try::branch": _try_branch,
     "core::ops::Try::branch": _try_branch,
